@@ -163,8 +163,10 @@ func e1Compare(sc *e1Scenario, h *hist.Hist, col *evid.Collector, mode, ref stri
 		col.Violation(fmt.Sprintf("%s:false-reject:%s:%s", prop, mode, ec), desc+" ("+err.Error()+")", rp)
 	case err == nil && !tip.Equal(wantTip):
 		col.Violation(prop+":wrong-tip:"+mode, desc+fmt.Sprintf(" tip=%s want=%s", tip, wantTip), rp)
-	case err != nil && !strict.OK:
+	case err != nil && !strict.OK && h.A.AllPoliciesValid():
 		// both reject: where a property names the error, compare its class
+		// (only when no broken policy state gives a second legitimate reason
+		// to reject)
 		reason := strings.SplitN(strict.Reason, ":", 2)[0]
 		switch reason {
 		case "violation", "violation-not-repaired", "invalid-entry-not-skipped":
